@@ -136,6 +136,10 @@ func (c Commitments) GetCreatorAccount() sdk.AccAddress {
 }
 
 func (vesting *VestingTokens) VestedSoFar(ctx sdk.Context) math.Int {
+	// a schedule of zero blocks (VestingInfo.Validate accepts NumBlocks >= 0) releases everything at once
+	if vesting.NumBlocks <= 0 {
+		return vesting.TotalAmount
+	}
 	totalBlocks := ctx.BlockHeight() - vesting.StartBlock
 	if totalBlocks > vesting.NumBlocks {
 		totalBlocks = vesting.NumBlocks
